@@ -79,7 +79,7 @@ def _label_of(f, e):
 def run(ctx):
     prog = ctx.prog
     ce = ConstEval(prog)
-    ctx.clauses_decided = ["R2 FCHK label tables", "R3 index offsets (writers)", "R4 FCIDUMP index-order pairing", "R5 lookup-table bijections", "R6 POSCAR same-order coherence", "R7 dict attributes never None", "R8 FCHK run-type vocabulary", "R9 options reach the per-frame routines", "R10 writer flattening vs reader reshape (symbolic evaluation)", "R11 layout-independent traversal", "R12 reader/writer unit factors are inverse", "R13 count fields rounded", "R14 token separation", "R15 Molekel centre separators (evaluated)", "R16 chunked sections complete (evaluated)"]
+    ctx.clauses_decided = ["R2 FCHK label tables", "R3 index offsets (writers)", "R4 FCIDUMP index-order pairing", "R5 lookup-table bijections", "R6 POSCAR same-order coherence", "R7 dict attributes never None", "R8 FCHK run-type vocabulary", "R9 options reach the per-frame routines", "R10 writer flattening vs reader reshape (symbolic evaluation)", "R11 layout-independent traversal", "R12 reader/writer unit factors are inverse", "R13 count fields rounded", "R14 token separation", "R15 Molekel centre separators (evaluated)", "R16 chunked sections complete (evaluated)", "R17-R19 Molekel / Molden / WFN orbital blocks (evaluated, shared with C01)"]
     ctx.clauses_declined = ["equality of real data to the digits printed", "behaviour at field overflow", "multi-line titles", "whether every optional attribute present is written", "R1/R9: decided under C03-R5 / C03-R2"]
 
     # ------------------------------------------------------------------ R2
@@ -494,6 +494,8 @@ def run(ctx):
     check_molekel_centers(ctx, "R15")
     ctx.rule("R16", "chunked sections write every value once, in order (evaluated)", "a template with fewer fields than values per line drops values silently: the section is too short to be read back")
     check_chunked_sections(ctx, "R16")
+    # orbital blocks of the wavefunction formats, writer fragment against reader routine (rules of C01, adopted)
+    ctx.borrow("c01", {"R14": "R17", "R15": "R18", "R16": "R19"})
     ctx.rule("R14", "formats read by splitting at white space are written with a literal separator between neighbouring fields", "for a large system a counter fills its field and touches its neighbour: the written line has fewer tokens and cannot be read back")
     with open(os.path.join(VERIF_DIR, "spec", "layouts.json")) as fh:
         column_formats = set(json.load(fh)) - {"_comment"}
